@@ -126,7 +126,8 @@ func (m *KRB5Token) Verify() (bool, gssapi.Status) {
 		if m.KRBError.MsgType != msgtype.KRB_ERROR {
 			return false, gssapi.Status{Code: gssapi.StatusDefectiveToken, Message: "KRB5_Error token not valid"}
 		}
-		return true, gssapi.Status{Code: gssapi.StatusUnavailable}
+		// A KRB_ERROR token carries no AP_REQ: nothing has been authenticated.
+		return false, gssapi.Status{Code: gssapi.StatusUnavailable}
 	}
 	return false, gssapi.Status{Code: gssapi.StatusDefectiveToken, Message: "unknown TOK_ID in KRB5 token"}
 }
